@@ -253,21 +253,21 @@ Qed.
 (* the public status(): when the first read of the stat file fails because the task is
    being reaped and the re-read shows state Z, the front end answers STATUS_ZOMBIE -- the
    documented constant of the letter the kernel publishes *)
-Theorem status_front_zombie r first e :
+Theorem status_front_zombie r first third e1 e2 :
   wf_kstat r = true -> fld 3 r = Some [90] -> first = SESRCH \/ first = SENOENT ->
-  status_public (wrapped status first (SData (k_stat r)) e) = Val (bs "zombie")
+  status_public (wrapped status first (SData (k_stat r)) third e1 e2) = Val (bs "zombie")
   /\ spec_status documented_statuses 90 = Some (bs "zombie").
 Proof.
   intros H Hf Hfirst. split; [|reflexivity].
   pose proof (is_zombie_stat r [90] H Hf) as Z. cbv iota in Z.
   assert (C : status_zombie = bs "zombie") by (apply beqb_eq; exact status_zombie_const).
-  destruct Hfirst as [-> | ->]; cbn [wrapped]; rewrite Z; cbn [status_public]; now rewrite C.
+  destruct Hfirst as [-> | ->]; cbn [wrapped zombie_read]; rewrite Z; cbn [status_public]; now rewrite C.
 Qed.
 
 (* without a read fault the front end adds nothing *)
-Theorem status_front_plain r t s2 e :
+Theorem status_front_plain r t s2 s3 e1 e2 :
   wf_kstat r = true -> fld 3 r = Some t -> is_ascii t = true ->
-  status_public (wrapped status (SData (k_stat r)) s2 e) = Val (spec_status_tok t).
+  status_public (wrapped status (SData (k_stat r)) s2 s3 e1 e2) = Val (spec_status_tok t).
 Proof. intros H Hf Ha. cbn [wrapped]. now rewrite (status_total r t H Hf Ha). Qed.
 
 Theorem status_exact r c s :
